@@ -154,11 +154,43 @@ def exc_name(e):
     return type(e).__name__
 
 
+def _bigger(spec):
+    """a sibling configuration: one more step and one more unit of everything (same class, same costs)"""
+    w = spec.split()
+    pos = {"TL": [1, 2], "MS": [1, 2, 3], "MX": [1, 2], "RV": [1, 2], "DR": [1, 2], "PD": [1, 2], "HR": [1, 2, 3]}.get(w[0])
+    if not pos or int(w[1]) > 60:
+        return None
+    for i in pos:
+        w[i] = str(int(w[i]) + 1)
+    return " ".join(w)
+
+
+def _disturbers(spec):
+    """Other live objects of the same process (C15: they must not matter).  A sibling with one more step / unit is
+    built and abandoned after 3 actions, then a twin with equal parameters is built and abandoned after 1-5 actions
+    (it is resumed now and then while the object under test runs).  Every real trace is taken in this company, so a
+    leak between instances (class attributes, module-level caches with incomplete keys, shared mutable defaults)
+    shows up in the check of whichever property it breaks."""
+    out = []
+    for sp, steps in ((_bigger(spec), 3), (spec, 1 + (sum(map(ord, spec)) % 5))):
+        if sp is None:
+            continue
+        try:
+            d = parse_spec(sp)()
+            for _ in range(steps):
+                next(d)
+            out.append(d)
+        except Exception:
+            pass
+    return out
+
+
 def canon_trace(spec, nfin, k, max_actions=2000000):
     """The canonical driver of tests/test_validity.py; mirrors Sched.canon of the model."""
     lines = []
     buf = io.StringIO()
     with contextlib.redirect_stdout(buf), forced_numba(spec):
+        company = _disturbers(spec) if os.environ.get("VERIF_NO_COMPANY") != "1" else []
         try:
             o = parse_spec(spec)()
         except Exception as e:
@@ -196,6 +228,11 @@ def canon_trace(spec, nfin, k, max_actions=2000000):
                     o.finalize(nfin)
             except Exception as e:
                 lines.append("B finalize-" + exc_name(e))
+            if company and count % 7 == 0 and count < 200:
+                try:
+                    next(company[-1])      # the twin is resumed while the object under test runs
+                except Exception:
+                    pass
             ca = canon_action(a)
             if ca is None:
                 lines.append("B badaction " + repr(a))
